@@ -104,8 +104,33 @@ def run(ctx):
                     break
                 if has_isfile:
                     why = "the refusal test has extra conjuncts that weaken it: {}".format(others)
+            if not ok:
+                # the refusal extracted into a helper: a statement `h(<output file>)` before the call to gen, where h
+                # raises when its argument is an existing file; it may be skipped only when `args.phase == 0` is false
+                for hc in iter_own(main.node):
+                    if not (isinstance(hc, ast.Call) and hc.lineno < c.lineno and isinstance(main.mod.parents.get(hc), ast.Expr)):
+                        continue
+                    h = index.funcs.get(index.callee(main.mod, hc, main) or "")
+                    if h is None or not hc.args or "output_filename" not in norm(hc.args[0]) or not h.params:
+                        continue
+                    raises_on_file = any(
+                        isinstance(st, ast.If)
+                        and "isfile({})".format(h.params[0]) in norm(st.test).replace("path.", "").replace("os.", "")
+                        and not (isinstance(st.test, ast.BoolOp))
+                        and st.body
+                        and isinstance(st.body[-1], ast.Raise)
+                        for st in h.node.body
+                    )
+                    if not raises_on_file:
+                        continue
+                    fh = facts_at.get(id(hc)) or {}
+                    extra = {t: v for t, v in fh.items() if facts.get(t) != v}
+                    if all(t == "args.phase == 0" and v is True for t, v in extra.items()):
+                        ok, why = True, ""
+                        break
+                    why = "the refusal helper {}() is only reached when {}".format(h.node.name, sorted(extra))
             # the true arm must raise: guaranteed by the fact being False after an `if` that terminates
-            ctx.ob("C19.guard", main, c, ok, why)
+            ctx.ob("C19.guard", main, "gen(...) is dominated by the refuse-if-exists test", ok, why, line=c.lineno)
         # the guard's true arm raises (not e.g. prints and continues)
         for n in iter_own(main.node):
             if isinstance(n, ast.If) and "isfile" in norm(n.test) and "output_filename" in norm(n.test):
@@ -615,6 +640,51 @@ def _future(ctx, index):
             if isinstance(p, ast.Call) and norm(p.func) in ("sorted", "filter", "partition") or isinstance(p, ast.keyword) and p.arg == "key":
                 in_order = True
             p = f.mod.parents.get(p)
+    # the other discipline: one pass that partitions the body into lists, `__future__` imports into their own list,
+    # and a final concatenation in which that list comes before every other list the loop fills
+    partition_ok = None
+    if hits and not in_order:
+        fut_lists, other_lists = set(), set()
+        for n in hits:
+            arm = f.mod.parents.get(n)
+            while arm is not None and not isinstance(arm, ast.If):
+                arm = f.mod.parents.get(arm)
+            if arm is None:
+                continue
+            positive = isinstance(n.ops[0], ast.Eq)
+            for blk, is_future in ((arm.body, positive), (arm.orelse, not positive)):
+                for st in blk:
+                    for c in ast.walk(st):
+                        if isinstance(c, ast.Call) and isinstance(c.func, ast.Attribute) and c.func.attr in ("append", "extend") and isinstance(c.func.value, ast.Name):
+                            (fut_lists if is_future else other_lists).add(c.func.value.id)
+            # sibling arms of an enclosing if/elif chain also fill "other" lists
+            top = arm
+            while isinstance(f.mod.parents.get(top), ast.If) and top in f.mod.parents.get(top).orelse:
+                top = f.mod.parents.get(top)
+            for c in ast.walk(top):
+                if isinstance(c, ast.Call) and isinstance(c.func, ast.Attribute) and c.func.attr in ("append", "extend") and isinstance(c.func.value, ast.Name):
+                    if c.func.value.id not in fut_lists:
+                        other_lists.add(c.func.value.id)
+        other_lists -= fut_lists
+        concat = None
+        for n in iter_own(f.node):
+            if isinstance(n, ast.Assign) and norm(n.targets[0]).endswith(".body") and isinstance(n.value, ast.BinOp):
+                order = []
+
+                def flat(e):
+                    if isinstance(e, ast.BinOp) and isinstance(e.op, ast.Add):
+                        flat(e.left)
+                        flat(e.right)
+                    else:
+                        order.append(norm(e))
+
+                flat(n.value)
+                concat = order
+        if fut_lists and concat is not None and all(x in concat for x in fut_lists):
+            pos_f = max(concat.index(x) for x in fut_lists)
+            pos_o = [concat.index(x) for x in other_lists if x in concat]
+            partition_ok = bool(pos_o) and pos_f < min(pos_o)
+            in_order = True
     ok = bool(hits) and in_order
     ctx.ob(
         "C19.future",
@@ -627,6 +697,15 @@ def _future(ctx, index):
         "--prepend/--imports-from-file it can end up after another import and the written module does not compile",
         line=f.node.lineno,
     )
+    if ok and partition_ok is not None:
+        ctx.ob(
+            "C19.future",
+            f,
+            "the `__future__` partition is concatenated before every other partition",
+            partition_ok,
+            "" if partition_ok else "the list collecting `__future__` imports is not placed before the other imports / statements",
+            line=f.node.lineno,
+        )
     if ok:
         # and the ordering puts them first: key `== "__future__"` with reverse=True, or `!=` without
         for n in hits:
